@@ -236,6 +236,29 @@ fn run_equality(dims: &[usize], vals: &[f64]) -> Result<(), (String, String)> {
     let g = arr(dims, vals);
     *g.gradient_mut() = Some(arr(dims, &vec![7.0; n]));
     expect("gradient-set-by-hand", &g, true)?;
+    // the approximate comparisons of the `approx` traits agree with == on these cases: dimensions are compared too
+    {
+        use approx::{AbsDiffEq, RelativeEq};
+        let eps = Float::EPSILON;
+        let same = arr(dims, vals);
+        if !x.abs_diff_eq(&same, eps) || !x.relative_eq(&same, eps, eps) {
+            return Err(e("equality:approx-identical", format!("abs_diff_eq / relative_eq report dims {:?} values {:?} as different from an identical copy", dims, vals)));
+        }
+        for s in shapes_with_numel(n) {
+            if s != dims {
+                let other = arr(&s, vals);
+                if x.abs_diff_eq(&other, eps) || x.relative_eq(&other, eps, eps) || other.abs_diff_eq(&x, eps) {
+                    return Err(e("equality:approx-ignores-dimensions", format!("abs_diff_eq / relative_eq report dims {:?} and dims {:?} with the same values as equal", dims, s)));
+                }
+            }
+        }
+        let mut v = vals.to_vec();
+        v[n - 1] += 1.0;
+        let off = arr(dims, &v);
+        if x.abs_diff_eq(&off, eps) || x.relative_eq(&off, eps, eps) {
+            return Err(e("equality:approx-value", format!("abs_diff_eq / relative_eq report dims {:?} as equal although the last value differs by 1", dims)));
+        }
+    }
     // a prefix / a longer flat array
     if n > 1 {
         expect("prefix", &arr(&[n - 1], &vals[..n - 1]), false)?;
